@@ -29,6 +29,8 @@ def main():
     ap.add_argument("--tier", default="quick")
     ap.add_argument("--only", default=None)
     ap.add_argument("--skip-confirm", action="store_true")
+    ap.add_argument("--confirm-only", action="store_true")
+    ap.add_argument("--demo-cmd", default=None, help="override the cargo test command that runs the demo")
     a = ap.parse_args()
     seed, wt = os.path.abspath(a.seed_dir), a.worktree
     patch = os.path.join(seed, "patch.diff")
@@ -41,11 +43,11 @@ def main():
             shutil.copyfile(tgt, tgt + ".seedbak")
             with open(tgt, "a") as f:
                 f.write("\n" + open(os.path.join(seed, "demo.rs")).read())
-            return f"cargo test --offline -p {a.crate} {feat} seed_demo"
+            return a.demo_cmd or f"cargo test --offline -p {a.crate} {feat} seed_demo"
         d = os.path.join(wt, "crates", a.crate, "tests")
         os.makedirs(d, exist_ok=True)
         shutil.copyfile(os.path.join(seed, "demo.rs"), os.path.join(d, "seed_demo.rs"))
-        return f"cargo test --offline -p {a.crate} {feat} --test seed_demo"
+        return a.demo_cmd or f"cargo test --offline -p {a.crate} {feat} --test seed_demo"
 
     def remove_demo():
         if a.append:
@@ -77,6 +79,9 @@ def main():
             out["confirm"]["log"] = o0[-800:]
         if rc_suite != 0:
             out["confirm"]["suite_log"] = o_suite[-800:]
+    if a.confirm_only:
+        print(json.dumps(out, indent=1))
+        return
     # run the check against the change in /repo, undo straight afterwards
     rc, o = sh("git -C /repo status --porcelain")
     assert o.strip() == "", "/repo is not clean: " + o
